@@ -1056,6 +1056,12 @@ impl Parser {
         Ok(inputs)
     }
 
+    /// What may follow the output block: a context, an exception (`|` or `//`), a comment or the end of the line
+    fn at_end_of_output(&self) -> bool {
+        self.peek_expect(TokenKind::Slash) || self.peek_expect(TokenKind::Pipe) || self.peek_expect(TokenKind::DubSlash)
+        || self.peek_expect(TokenKind::Comment) || self.peek_expect(TokenKind::Eol)
+    }
+
     fn get_output(&mut self) -> Result<Vec<Vec<Item>>, RuleSyntaxError> {
         // returns `OUT ← OUT_TRM  ( ',' OUT_TRM )*` where `OUT_TRM ← '&' / EMP / OUT_EL+`
         let mut outputs = Vec::new();
@@ -1064,7 +1070,7 @@ impl Parser {
             // Metathesis
             if let Some(el) = self.eat_expect(TokenKind::Ampersand) {
                 outputs.push(vec![Item::new(ParseElement::Metathesis, el.position)]);
-                if !self.expect(TokenKind::Comma) && (!self.peek_expect(TokenKind::Slash) && !self.peek_expect(TokenKind::Pipe) && !self.peek_expect(TokenKind::Eol)) {
+                if !self.expect(TokenKind::Comma) && !self.at_end_of_output() {
                     return Err(RuleSyntaxError::MetathErr(self.curr_tkn.clone()))
                 }
                 continue;
@@ -1072,7 +1078,7 @@ impl Parser {
             // Deletion
             if let Some(empty) = self.get_empty() {
                 outputs.push(vec![empty]);
-                if !self.expect(TokenKind::Comma) && !self.peek_expect(TokenKind::Slash) && !self.peek_expect(TokenKind::Pipe) && !self.peek_expect(TokenKind::Eol) {
+                if !self.expect(TokenKind::Comma) && !self.at_end_of_output() {
                     return Err(RuleSyntaxError::DeleteErr(self.curr_tkn.clone()))
                 }
                 continue;
@@ -1121,7 +1127,7 @@ impl Parser {
         if self.expect(TokenKind::Eol) || self.expect(TokenKind::Comment) {
             return Ok(Rule::new(input, output, Vec::new(), Vec::new()))
         }
-        if !self.peek_expect(TokenKind::Slash) && !self.peek_expect(TokenKind::Pipe) {
+        if !self.peek_expect(TokenKind::Slash) && !self.peek_expect(TokenKind::Pipe) && !self.peek_expect(TokenKind::DubSlash) {
             return Err(RuleSyntaxError::ExpectedEndLine(self.curr_tkn.clone()))
         }
         // ('/' ENV)
